@@ -58,6 +58,7 @@ type LexOpts struct {
 	Macros     bool
 	NoNullable bool // guarantee that no rule matches the empty string
 	BothModeActions bool // some rules inside modes carry both @pop_mode and @push_mode (any order)
+	LoopOnlyModes   bool // some modes consist of a single rule that begins with a loop (X* T, (X Y)* T): after consuming text the machine is back in its start state
 	TwoModeActions  bool // some rules carry two mode actions in a meaningful order: pop then push ("replace the mode"), or two pushes
 	NullablePct int // otherwise: percent of rules left nullable when they come out nullable (default 10)
 }
@@ -115,7 +116,7 @@ func (g *lexGen) atom() lexspec.Rx {
 		for i := range s {
 			s[i] = g.pick()
 		}
-		l := lexspec.Lit{S: s}
+		l := lexspec.Lit{S: s, Raw: r.Chance(1, 2)}
 		if r.Chance(1, 4) {
 			l.Esc = make([]bool, n)
 			for i := range l.Esc {
@@ -322,6 +323,23 @@ func RandomLexer(r *rng.R, o LexOpts) (*lexspec.Spec, Alphabet) {
 	emitModes := func(at int) {
 		for _, m := range modeAt[at] {
 			rules := mkRules(true, m)
+			if o.LoopOnlyModes && r.Chance(1, 2) {
+				// BODY = X* T @pop_mode   or   BODY = (X Y)* T @pop_mode
+				x, y, t := g.pick(), g.pick(), g.pick()
+				var loop lexspec.Rx = lexspec.Card{X: lexspec.Class{Items: []lexspec.Item{{Lo: x, Hi: x}}, Neg: r.Chance(1, 2) && x != t}, Op: "*"}
+				if r.Chance(1, 2) {
+					loop = lexspec.Card{X: lexspec.Cat{Parts: []lexspec.Rx{lexspec.Lit{S: []rune{x}}, lexspec.Lit{S: []rune{y}}}}, Op: "*"}
+				}
+				if cl, ok := loop.(lexspec.Card); ok {
+					if c2, ok := cl.X.(lexspec.Class); ok && c2.Neg {
+						// the terminator must stay outside the negated body class
+						c2.Items = []lexspec.Item{{Lo: t, Hi: t}}
+						cl.X = c2
+						loop = cl
+					}
+				}
+				rules = []lexspec.Rule{{Kind: lexspec.RToken, Name: newTok(), Rx: lexspec.Cat{Parts: []lexspec.Rx{loop, lexspec.Lit{S: []rune{t}}}}, Actions: []lexspec.Action{{Kind: lexspec.APop}}}}
+			}
 			s.Entries = append(s.Entries, lexspec.Entry{Mode: &lexspec.Mode{Name: m, Rules: rules}})
 		}
 	}
